@@ -76,6 +76,14 @@ class Term:
         elif k == "cha":
             _, self.c = self._clamp(0, op[1])
             self.pw = False
+        elif k in ("cuu", "cud", "cuf", "cub"):
+            # relative cursor movement (CSI A/B/C/D): not in the Lean spec's vocabulary (the windows never write it), but
+            # the reference terminal understands it so that the ORACLE can still judge the screen if the code starts to
+            # (the tie then reports the different operation)
+            dr = {"cuu": -op[1], "cud": op[1]}.get(k, 0)
+            dc = {"cub": -op[1], "cuf": op[1]}.get(k, 0)
+            self.r, self.c = self._clamp(max(self.r + dr, 0), max(self.c + dc, 0))
+            self.pw = False
         elif k == "put":
             for cell in op[1]:
                 self.put_cell(cell)
@@ -252,6 +260,8 @@ class StreamTokenizer:
             ops.append(("cup", max(arg(0, 1), 1) - 1, max(arg(1, 1), 1) - 1))
         elif final == "G":
             ops.append(("cha", max(arg(0, 1), 1) - 1))
+        elif final in "ABCD":
+            ops.append(({"A": "cuu", "B": "cud", "C": "cuf", "D": "cub"}[final], max(arg(0, 1), 1)))
         elif final == "K" and arg(0, 0) in (0, 1):
             ops.append(("el0",) if arg(0, 0) == 0 else ("el1",))
         elif final == "J" and arg(0, 0) == 0:
@@ -406,7 +416,7 @@ def dec_ops(s):
         p = x.split(".")
         if p[0] == "put":
             out.append(("put", tuple(dec_row(p[1])), sgrterm.freeze(wire.dec_atts(p[2]))))
-        elif p[0] in ("cup", "cha"):
+        elif p[0] in ("cup", "cha", "cuu", "cud", "cuf", "cub"):
             out.append((p[0],) + tuple(int(v) for v in p[1:]))
         else:
             out.append((p[0],))
